@@ -479,9 +479,11 @@ def ref_unbind(xs, args):
 # reductions
 # =============================================================================================
 @st.composite
-def _dim_arg(draw, nd, allow_tuple=True, allow_none=True):
+def _dim_arg(draw, nd, allow_tuple=True, allow_none=True, allow_empty=False):
     kinds = (["none"] if allow_none else []) + (["int", "int"] if nd > 0 else []) + \
             (["tuple"] if allow_tuple and nd > 0 else [])
+    if allow_empty and allow_tuple and draw(st.integers(0, 9)) == 0:
+        return {"tuple": []}            # dim=(): reduce over no dimension at all (NumPy: the identity)
     kind = draw(st.sampled_from(kinds))
     if kind == "none":
         return None
@@ -502,7 +504,7 @@ def dimval(d):
 def gen_reduce(draw, distinct=False, allow_tuple=True):
     shp = draw(gen.shapes(0, 4, 60 if distinct else 100))
     nd = len(shp)
-    dim = draw(_dim_arg(nd, allow_tuple))
+    dim = draw(_dim_arg(nd, allow_tuple, allow_empty=True))
     v = draw(gen.distinct(shp)) if distinct else draw(gen.grid(shp))
     args = {"dim": dim, "keepdims": draw(st.booleans()), "form": draw(st.sampled_from(["method", "fn"]))}
     if dim is None and not args["keepdims"] and draw(st.booleans()):
@@ -559,6 +561,8 @@ def _reduce_tags(args, shapes):
     d = args["dim"]
     if args.get("np_int"):
         t.append("numpy_integer_dim")
+    if isinstance(args.get("dim"), dict) and not args["dim"]["tuple"]:
+        t.append("empty_tuple_dim")
     if d is None:
         t.append("dim_none")
     elif isinstance(d, dict):
@@ -956,7 +960,9 @@ BY_NAME["squeeze"].documented = lambda a, s: True          # "dim (int or tuple,
 BY_NAME["unsqueeze"].documented = lambda a, s: True        # "dim (int or tuple)"
 # naming dim 0 / -1 of a 0-d tensor: torch accepts it, NumPy only for sum/max/min - not spelled out, accept-or-raise
 # (likewise a NumPy integer where the docstring says int: accept-or-raise, never a different answer)
-_dim_on_0d = lambda a, s: (len(s[0]) == 0 and a.get("dim") is not None) or bool(a.get("np_int"))      # noqa: E731
+# (and dim=(): NumPy reduces over nothing, torch over everything - not spelled out either)
+_dim_on_0d = lambda a, s: ((len(s[0]) == 0 and a.get("dim") is not None) or bool(a.get("np_int"))      # noqa: E731
+                          or (isinstance(a.get("dim"), dict) and not a["dim"]["tuple"]))
 BY_NAME["sum"].documented = lambda a, s: not _dim_on_0d(a, s)     # "dim (int or tuple, optional)"
 BY_NAME["mean"].documented = lambda a, s: not _dim_on_0d(a, s)
 BY_NAME["max"].documented = lambda a, s: not _dim_on_0d(a, s)
